@@ -504,7 +504,8 @@ class C04(Check):
     rule = ('every well-posed serial line Source -> stations^n -> Sink, n<=2 (n=3 on a reduced alphabet in the thorough tier), '
             'stations = handler / processor with cycle 0,1,2 (+0.5 thorough) or buffer with capacity 1,2,unbounded and delay 0,1; '
             'source cycle 0,1,2; sink cycle 0,1; budget unbounded or 2; horizon 5; under EVERY tie-break order (exhaustive with '
-            'state matching, no injected operations); the two documented long-horizon examples are run under two deterministic '
+            'state matching, no injected operations); the same with one station of delay or cycle 2**31 next to stations of '
+            'cycle 0.5 and 0 (4 parts, horizon 5*2**31); the two documented long-horizon examples are run under two deterministic '
             'tie policies only (conformance, not exhaustive); non-trivial = a line on which a tie was broken and parts went through')
     level_text = ('Exact agreement (dyadic grid, equality of floats) between the arrival times recorded at every station and an '
                   'independent max-plus reference recurrence, at the end of every explored schedule of every line of the family; '
@@ -550,6 +551,15 @@ class C04(Check):
                 if ok:
                     sp['name'] += f'@h{hz}'
                     jobs.append(line_job(sp, ['recurrence'], e2=2, max_depth=1500))
+        # magnitudes: one station holds every part for 2**31 time units while the rest of the line works on a grid of 0.5
+        # (all times stay exactly representable; a tolerance RELATIVE to the clock is then larger than the grid)
+        BIG = 2 ** 31
+        opts = [('buffer', {'capacity': None, 'delay': BIG}), ('buffer', {'capacity': 2, 'delay': BIG}),
+                ('processor', {'cycle': BIG}), ('processor', {'cycle': 0.5}), ('handler', {'cycle': 0})]
+        for sp, ok in S.ser_family(n_max=2, n_min=2, opts=opts, src_cycles=(1,), sink_cycles=(0,) if not th else (0, 1),
+                                   budgets=(4,), horizon=5 * BIG):
+            if ok and 'd%d' % BIG in sp['name'] or 'P%d' % BIG in sp['name']:
+                jobs.append(line_job(sp, ['recurrence'], e2=1, max_depth=1500))
         for ex in (S.EX_SINGLE_PROCESSOR(), S.EX_BUFFER()):
             for pol in ('first', 'last'):
                 jobs.append(conformance_job(ex, ['recurrence', 'examplecount'], pol))
